@@ -211,7 +211,7 @@ bool World::exec_drift_op(const Step& s)
                 indices.push_back(o);
         }
         auto pick = [&](std::vector<Obj>& v, int64_t a) -> Obj* { return v.empty() ? nullptr : &v[(uint64_t)a % v.size()]; };
-        unsigned k = (unsigned)((uint64_t)arg(1) % 18);
+        unsigned k = (unsigned)((uint64_t)arg(1) % 19);
         Obj* T = pick(tables, arg(2));
         std::vector<Col> cols = T ? columns(d, T->name) : std::vector<Col>{};
         const Col* C = cols.empty() ? nullptr : &cols[(uint64_t)arg(3) % cols.size()];
@@ -447,6 +447,12 @@ bool World::exec_drift_op(const Step& s)
                         applied = edit_master_sql(d, "index", I->name, sql, I->name + "Renamed");
                     }
                 }
+                break;
+            case 18:
+                // an extra table the way another program leaves one without any CREATE TABLE: planner statistics
+                kind = "add-table-analyze";
+                target = "sqlite_stat1";
+                applied = d.exec("ANALYZE");
                 break;
             case 16:
                 kind = "index-uniqueness";
